@@ -483,7 +483,7 @@ def r2(ctx):
 
 
 # ------------------------------------------------------------------------------------------ R3
-@R.rule("C18-R3", floor=8, template="T-GUARD/T-FLOW",
+@R.rule("C18-R3", floor=10, template="T-GUARD/T-FLOW",
         desc="the wrapper is built only under _has_row_limiting_clause, with OFFSET/FETCH unavailable and not "
              "re-entrantly; rows are numbered in the statement's ORDER BY (MSSQL: over(order_by=<order by clauses>), "
              "an empty ORDER BY is rejected; Oracle: ROWNUM over the ordered inner select)")
@@ -583,6 +583,40 @@ def r3(ctx):
     ctx.check(good, f.key + ":order-required",
               "the wrapper can be built without first rejecting an empty ORDER BY (row numbers would be arbitrary)",
               "CompileError without ORDER BY", f.loc)
+    # (str2-g) DISTINCT is evaluated AFTER window functions / ROWNUM of the same SELECT: a row-number column added to the
+    # statement's own SELECT level makes every row distinct.  The number must be computed one level outside the (aliased)
+    # original statement, or the wrapper must not be built for a DISTINCT statement.
+    for ckey in (MSSQL, ORACLE):
+        fw = ctx.method(ckey, "translate_select_structure")
+        fw2 = _nf(ctx, fw)
+        attach = []
+        for c in calls_in(fw2.node):
+            if isinstance(c.func, ast.Attribute) and c.func.attr in ("add_columns", "column", "with_only_columns", "add_column") \
+                    and any(_is_row_number(x) for a in list(c.args) + [k.value for k in c.keywords]
+                            for x in ast.walk(inline_locals(fw2.node, a.value if isinstance(a, ast.Starred) else a))):
+                attach.append(c)
+        levels = []
+        pmw = {ch: p_ for p_ in ast.walk(fw2.node) for ch in ast.iter_child_nodes(p_)}
+        for c in attach:
+            st = c
+            while st is not None and not isinstance(st, ast.stmt):
+                st = pmw.get(st)
+            levels.append((c, _select_level(ctx, fw2, c.func.value, st)))
+        unk = [unparse(c)[:60] for c, lv in levels if "unknown" in lv]
+        ctx.require(not unk, f"{fw.key}: cannot tell which SELECT level the row-number column is added to: {unk}")
+        same = [c for c, lv in levels if "same" in lv]
+        guarded = True
+        if same:
+            n_d, _t = _wrap_paths(ctx, fw, fw2.node.body, {"_distinct": True})
+            guarded = n_d == 0
+        ctx.check(not same or guarded, fw.key + ":distinct",
+                  f"`{unparse(same[0])[:90] if same else ''}` adds the row-number column to the statement's own SELECT level and the wrapper is also "
+                  f"built for a DISTINCT statement: `SELECT DISTINCT x, ROW_NUMBER() OVER (...)` -- DISTINCT is applied after the window "
+                  f"function, every row differs in its row number, so duplicates are returned and the window is a slice of the "
+                  f"non-distinct rows (number the rows outside an aliased copy of the statement, as the Oracle ROWNUM wrapper does, or "
+                  f"reject DISTINCT)",
+                  ("row number computed outside the aliased original statement" if not same else "no wrapper path for a DISTINCT statement")
+                  + f" ({len(attach)} attach site(s))", fw.loc)
     f = ctx.method(ORACLE, "translate_select_structure")
     f2 = _nf(ctx, f)
     strips = [c for c in calls_in(f2.node) if isinstance(c.func, ast.Attribute) and c.func.attr == "order_by"]
@@ -592,6 +626,54 @@ def r3(ctx):
     ctx.check(not strips and bool(rownum) and bool(inner_alias), f.key + ":order",
               "the inner (ordered) select is re-ordered / ROWNUM is not applied outside an aliased ordered subquery",
               "ROWNUM over aliased ordered inner select", f.loc)
+
+
+def _is_row_number(x):
+    """a ROW_NUMBER() OVER (...) expression or Oracle's ROWNUM pseudo column"""
+    if isinstance(x, ast.Call) and isinstance(x.func, ast.Attribute) and x.func.attr == "over":
+        return True
+    if isinstance(x, ast.Call) and (call_name(x) or "").rsplit(".", 1)[-1] in ("literal_column", "column") and x.args \
+            and isinstance(x.args[0], ast.Constant) and str(x.args[0].value).upper() == "ROWNUM":
+        return True
+    return False
+
+
+def _select_level(ctx, f2, e, at, depth=0):
+    """Which SELECT does the statement expression `e` (evaluated at statement `at`) denote, relative to the statement being
+    translated?  -> set of 'same' (the statement itself / a _generate() copy / a generative method chain on it) |
+    'outer' (a new sql.select(..) or an alias()/subquery() of something) | 'unknown:..'.  Names are followed through the
+    bindings that reach `at` (CFG), so a re-bound local means what it means at that point."""
+    from ._helpers_rules_b import OrderFlow
+    if depth > 8:
+        return {"unknown:depth"}
+    if isinstance(e, ast.Call):
+        nm = call_name(e) or ""
+        short = nm.rsplit(".", 1)[-1]
+        if nm in ("sql.select", "select", "expression.select", "future.select"):
+            return {"outer"}
+        if isinstance(e.func, ast.Attribute):
+            if short in ("alias", "subquery", "scalar_subquery", "cte"):
+                return {"outer"}
+            if short == "_generate" or short == "_clone":
+                return {"same"}
+            return _select_level(ctx, f2, e.func.value, at, depth + 1)
+        return {f"unknown:{unparse(e)[:40]}"}
+    if isinstance(e, ast.Name):
+        of = ctx.__dict__.setdefault("_str2g_of", None) or OrderFlow(ctx)
+        ctx.__dict__["_str2g_of"] = of
+        binds, entry = of.reaching(e.id, f2, at)
+        out = set()
+        if entry and e.id in f2.params:
+            out.add("same")
+        for v, st in binds:
+            if v is None:
+                out.add(f"unknown:{unparse(st)[:40]}")
+            elif st is at and any(isinstance(x, ast.Name) and x.id == e.id for x in ast.walk(v)) and not binds[1:]:
+                out.add(f"unknown:{unparse(st)[:40]}")
+            else:
+                out |= _select_level(ctx, f2, v, st, depth + 1)
+        return out or {f"unknown:{e.id}"}
+    return {f"unknown:{unparse(e)[:40]}"}
 
 
 def _wrap_paths(ctx, f, fbody, force):
@@ -1278,6 +1360,234 @@ def enclosing_stmt_of(pm, node):
     return cur
 
 
+# ------------------------------------------------------------------------------------------ R6 (str2-g)
+ROLE_ATTR = {"_limit_clause": "limit", "_offset_clause": "offset", "_fetch_clause": "fetch"}
+ROLE_KEY = {"limit_clause": "limit", "offset_clause": "offset", "fetch_clause": "fetch"}
+R6_SCOPE = ("orm/", "sql/selectable.py", "ext/")
+
+
+def _dict_literal_keys(ix, cls, name):
+    """keys of the dict display returned by the property / method `name` of cls (None if it is not one)"""
+    tgt = ix.resolve_method(cls, name) if cls is not None else None
+    if tgt is None:
+        return None
+    rets = [r.value for r in ast.walk(tgt.node) if isinstance(r, ast.Return) and r.value is not None]
+    if len(rets) != 1:
+        return None
+    v = rets[0]
+    if isinstance(v, ast.Name):
+        b = [val for n, val, st in name_stores(tgt.node) if n == v.id and val is not None]
+        v = b[0] if len(b) == 1 else v
+    if isinstance(v, ast.Dict) and all(isinstance(k, ast.Constant) for k in v.keys):
+        return {k.value for k in v.keys}
+    return None
+
+
+def _presence_tests(ix, f, e):
+    """[(role, receiver text, available roles)] for every `<X>._limit_clause is [not] None` / `<d>.get("limit_clause") is
+    [not] None` / `<d>["limit_clause"] is [not] None` inside the boolean expression e"""
+    out = []
+    for c in ast.walk(e):
+        if not (isinstance(c, ast.Compare) and len(c.ops) == 1 and isinstance(c.ops[0], (ast.Is, ast.IsNot, ast.Eq, ast.NotEq))):
+            continue
+        l, r = c.left, c.comparators[0]
+        if isinstance(l, ast.Constant) and l.value is None:
+            l, r = r, l
+        if not (isinstance(r, ast.Constant) and r.value is None):
+            continue
+        if isinstance(l, ast.Attribute) and l.attr in ROLE_ATTR:
+            recv = l.value
+            avail = set(ROLE_ATTR.values())
+            if isinstance(recv, ast.Name) and recv.id == "self" and f.cls is not None:
+                # the components the class itself carries (legacy Query has no FETCH)
+                avail = {role for a, role in ROLE_ATTR.items()
+                         if ix.find_class_attr(f.cls, a) is not None
+                         or any(a in k.module.source and any(t == f"self.{a}" for m_ in k.methods.values() for t, _n, _s in _attr_stores(m_.node))
+                                for k in ix.mro(f.cls))}
+            out.append((ROLE_ATTR[l.attr], unparse(recv), frozenset(avail)))
+            continue
+        key, recv = None, None
+        if isinstance(l, ast.Call) and isinstance(l.func, ast.Attribute) and l.func.attr == "get" and l.args \
+                and isinstance(l.args[0], ast.Constant):
+            key, recv = l.args[0].value, l.func.value
+        elif isinstance(l, ast.Subscript) and isinstance(l.slice, ast.Constant):
+            key, recv = l.slice.value, l.value
+        if key in ROLE_KEY:
+            avail = set(ROLE_KEY.values())
+            if isinstance(recv, ast.Attribute) and isinstance(recv.value, ast.Name) and recv.value.id == "self":
+                keys = _dict_literal_keys(ix, f.cls, recv.attr)
+                if keys is not None:
+                    avail = {ROLE_KEY[k] for k in keys if k in ROLE_KEY}
+            out.append((ROLE_KEY[key], unparse(recv), frozenset(avail)))
+    return out
+
+
+def _attr_stores(node):
+    from ..astutil import attr_stores
+    return attr_stores(node)
+
+
+@R.rule("C18-R6", floor=5, template="T-SIBLING (row-limiting predicates)",
+        desc="outside the SQL compilers (orm/, ext/, sql/selectable.py) a boolean expression that asks whether a statement is "
+             "row-limited -- it tests the presence of more than one of LIMIT / OFFSET / FETCH on one object -- tests EVERY "
+             "row-limiting component that object carries (all three for select statements and the ORM compile state's "
+             "_select_args, LIMIT and OFFSET for legacy Query), as GenerativeSelect._has_row_limiting_clause does: a FETCH "
+             "statement must be treated like its LIMIT spelling (nesting for joined eager loading, ORDER BY kept, ...)")
+def r6(ctx):
+    from ._helpers_rob_e1 import expand, once_bound
+    ix = ctx.index
+    n = 0
+    for m in ix.all_modules():
+        if not m.relpath.startswith(R6_SCOPE) or not any(a in m.source for a in list(ROLE_ATTR) + list(ROLE_KEY)):
+            continue
+        for f in ix.all_functions(m):
+            if f.type_only or getattr(f, "is_overload", False):
+                continue
+            defs = once_bound(f.node)
+            roots = []
+            for x in walk_local(f.node, into_nested=True):
+                if isinstance(x, (ast.If, ast.While, ast.IfExp, ast.Assert)):
+                    roots.append(x.test)
+                elif isinstance(x, ast.Return) and x.value is not None:
+                    roots.append(x.value)
+                elif isinstance(x, ast.comprehension):
+                    roots.extend(x.ifs)
+            found = []
+            for e in roots:
+                e2 = expand(e, defs) if defs else e
+                tests = _presence_tests(ix, f, e2)
+                by_recv = {}
+                for role, recv, avail in tests:
+                    by_recv.setdefault(recv, (set(), avail))[0].add(role)
+                for recv, (roles, avail) in sorted(by_recv.items()):
+                    if len(roles) >= 2:
+                        found.append((e, recv, roles, avail))
+            for i, (e, recv, roles, avail) in enumerate(found):
+                ctx.functions_analysed.add(f.key)
+                n += 1
+                key = f"{f.key}:row-limiting-predicate" + ("" if len(found) == 1 else f"#{i + 1}")
+                missing = sorted(avail - roles)
+                ctx.check(not missing, key,
+                          f"`{unparse(e)[:120]}` asks whether `{recv}` is row-limited by testing {sorted(roles)} but never "
+                          f"{missing}, which `{recv}` also carries: a statement limited with "
+                          f"{'FETCH FIRST n ROWS' if 'fetch' in missing else '/'.join(missing).upper()} "
+                          f"is treated as unlimited here although its LIMIT spelling is not (sibling: "
+                          f"GenerativeSelect._has_row_limiting_clause tests limit, offset and fetch)",
+                          f"tests {sorted(roles)} = every row-limiting component of `{recv}`",
+                          f"{f.module.path}:{getattr(e, 'lineno', f.node.lineno)}")
+    ctx.require(n > 0, "no row-limiting predicate found in orm/, ext/, sql/selectable.py")
+
+
+# ------------------------------------------------------------------------------------------ R7 (str2-g)
+R7_CASES = dict(CASES)
+R7_CASES["fetch-only"] = dict(limit=None, offset=None, fetch=F)
+R7_CASES["fetch+offset"] = dict(limit=None, offset=O, fetch=F)
+SELECT_ONLY_HOOKS = ("translate_select_structure", "get_select_precolumns")
+
+
+def _row_limit_empty_paths(ctx, cls, rl, case, depth=0):
+    """Does `rl` (a _row_limit_clause implementation, executed as a method of `cls`) have a path that renders NOTHING for
+    the given limit/offset/fetch presence?  Delegations are followed: self.limit_clause -> the class's own limit_clause,
+    super()._row_limit_clause -> the next implementation in the MRO, fetch_clause renders (checked by R2).
+    -> (True|False, description of the empty path)"""
+    ix = ctx.index
+    attr, call0 = _hooks(case)
+
+    def call(n, env, sx, events):
+        # the statement IS a compound select here: isinstance(stmt, <..CompoundSelect..>) holds, isinstance(stmt, <..Select>) not
+        if isinstance(n.func, ast.Name) and n.func.id == "isinstance" and len(n.args) == 2:
+            names = [unparse(x).rsplit(".", 1)[-1] for x in (n.args[1].elts if isinstance(n.args[1], ast.Tuple) else [n.args[1]])]
+            if any("Compound" in x for x in names):
+                return True
+            if names and all(x in ("Select", "SelectBase") for x in names):
+                return names != ["Select"]
+        return call0(n, env, sx, events)
+
+    env = {}
+    for p_, d in func_defaults(rl.node).items():
+        env[p_] = d.value if isinstance(d, ast.Constant) else OPAQUE
+    paths = SymExec(attr=attr, call=call, what=rl.key, follow=(ctx, rl)).run(_nf(ctx, rl).node.body, env)
+    for kind, val, _env, events in paths:
+        if kind == "raise":
+            continue
+        if kind != "return" or not isinstance(val, str):
+            raise Unsupported(f"{rl.key}: a path ends with {kind} {val!r}")
+        rest = val
+        if "‹self.limit_clause›" in rest:
+            lc = ix.resolve_method(cls, "limit_clause")
+            lpaths = _run_cases(ctx, lc, {"c": case})["c"]
+            if any(k == "return" and isinstance(v, str) and v.strip() == "" for k, v, _e, _ev in lpaths):
+                return True, f"{rl.qualname} -> {lc.qualname} returns ''"
+            rest = rest.replace("‹self.limit_clause›", "x")
+        if "‹super._row_limit_clause›" in rest and depth < 3:
+            mro = ix.mro(cls)
+            nxt = None
+            if rl.cls in mro:
+                for k in mro[mro.index(rl.cls) + 1:]:
+                    if "_row_limit_clause" in k.methods:
+                        nxt = k.methods["_row_limit_clause"]
+                        break
+            if nxt is None:
+                raise Unsupported(f"{rl.key}: super()._row_limit_clause not resolved")
+            e, why = _row_limit_empty_paths(ctx, cls, nxt, case, depth + 1)
+            if e:
+                return True, f"{rl.qualname} -> {why}"
+            rest = rest.replace("‹super._row_limit_clause›", "x")
+        if rest.strip() == "":
+            return True, f"{rl.qualname} returns ''"
+    return False, None
+
+
+@R.rule("C18-R7", floor=6, template="T-SIBLING (Select and CompoundSelect share _row_limit_clause)",
+        desc="SQLCompiler.visit_compound_select renders the row limit of a UNION / INTERSECT / EXCEPT only through "
+             "_row_limit_clause(); the TOP prefix (get_select_precolumns) and the row-number wrapper "
+             "(translate_select_structure) are reached from visit_select alone.  So for every compiler class, for every "
+             "LIMIT / OFFSET / FETCH presence, _row_limit_clause (followed through limit_clause / super()) renders something on "
+             "every path -- or the class has its own visit_compound_select: otherwise union(...).limit(n) is compiled without "
+             "any row-limiting clause and returns every row")
+def r7(ctx):
+    ix = ctx.index
+    base = ix.cls("sql/compiler.py::SQLCompiler")
+    vcs = ctx.method(base.key, "visit_compound_select")
+    ctx.functions_analysed.add(vcs.key)
+    called = {(call_name(c) or "").rsplit(".", 1)[-1] for c in calls_in(_nf(ctx, vcs).node, into_nested=True)}
+    ctx.require("_row_limit_clause" in called, f"{vcs.key}: no call of _row_limit_clause")
+    select_only = [h for h in SELECT_ONLY_HOOKS if h not in called]
+    classes = [base] + sorted(ix.subclasses(base), key=lambda c: c.key)
+    for cls in classes:
+        if cls.module.relpath.startswith("testing/"):
+            continue
+        own = [n_ for n_ in ("_row_limit_clause", "limit_clause") if n_ in cls.methods]
+        if cls is not base and not own:
+            continue
+        key = f"{cls.key}:compound-select-row-limit"
+        rl = ix.resolve_method(cls, "_row_limit_clause")
+        ctx.require(rl is not None, f"{cls.key}: _row_limit_clause not resolved")
+        ctx.functions_analysed.add(rl.key)
+        own_vcs = ix.resolve_method(cls, "visit_compound_select")
+        if own_vcs is not vcs:
+            ctx.ok(key, f"own visit_compound_select ({own_vcs.qualname})", nontrivial=False)
+            continue
+        empties = []
+        for cname, case in R7_CASES.items():
+            try:
+                e, why = _row_limit_empty_paths(ctx, cls, rl, case)
+            except Unsupported as ex:
+                ctx.require(False, f"{key}: {ex}")
+            if e:
+                empties.append((cname, why))
+        if not empties:
+            ctx.ok(key, f"_row_limit_clause renders a clause on every path for {len(R7_CASES)} limit/offset/fetch combinations")
+            continue
+        alts = [h for h in select_only if (ix.resolve_method(cls, h) is not None and ix.resolve_method(cls, h).cls is not base)]
+        ctx.violation(key,
+                      f"for {', '.join(c for c, _ in empties)} a path renders no row-limiting text ({empties[0][1]}): the class limits a plain "
+                      f"SELECT through {' / '.join(alts) or 'another hook'}, which only visit_select reaches, while "
+                      f"{vcs.qualname} renders the limit of a compound select through _row_limit_clause() alone -- "
+                      f"union(a, b).order_by(..).limit(n) is compiled WITHOUT any row-limiting clause on that path and returns all rows "
+                      f"(it must render OFFSET/FETCH, wrap the compound select, or raise CompileError)", rl.loc)
+
+
 # ------------------------------------------------------------------------------------------ self test
 MS = "dialects/mssql/base.py"
 OR = "dialects/oracle/base.py"
@@ -1505,3 +1815,52 @@ R.mutant('benign-oracle-max-row-ternary', OR,
          sub(_ORA_MAX,
              '                    max_row = (\n                        limit_clause\n                        if offset_clause is None\n'
              '                        else limit_clause + offset_clause\n                    )\n\n'), None)
+
+# ---- str2-g: R6 (row-limiting predicates), R7 (compound selects), R3 `:distinct`
+SEL = "sql/selectable.py"
+_HAS_RL = ('            self._limit_clause is not None\n            or self._offset_clause is not None\n'
+           '            or self._fetch_clause is not None\n')
+R.mutant('r6-select-has-row-limiting-forgets-fetch', SEL,
+         sub(_HAS_RL, '            self._limit_clause is not None\n            or self._offset_clause is not None\n'), 'C18-R6')
+R.mutant('r6-select-has-row-limiting-forgets-offset', SEL,
+         sub(_HAS_RL, '            self._limit_clause is not None\n            or self._fetch_clause is not None\n'), 'C18-R6')
+R.mutant('benign-r6-select-has-row-limiting-through-locals', SEL,
+         sub('        return (\n' + _HAS_RL + '        )\n',
+             '        has_limit = self._limit_clause is not None\n        has_offset = self._offset_clause is not None\n'
+             '        has_fetch = self._fetch_clause is not None\n        return has_limit or has_offset or has_fetch\n'), None)
+R.mutant('benign-r6-select-has-row-limiting-early-returns', SEL,
+         sub('        return (\n' + _HAS_RL + '        )\n',
+             '        if self._fetch_clause is not None:\n            return True\n'
+             '        return (\n            self._limit_clause is not None\n            or self._offset_clause is not None\n        )\n'), None)
+_NEST = ('            or (\n                kwargs.get("offset_clause") is not None\n                and self.multi_row_eager_loaders\n            )\n')
+R.mutant('benign-r6-fix-should-nest-selectable-tests-fetch', 'orm/context.py',
+         sub(_NEST, _NEST + '            or (\n                kwargs.get("fetch_clause") is not None\n                and self.multi_row_eager_loaders\n            )\n'), None)
+R.mutant('r6-query-asks-statement-limit-offset-only', 'orm/strategies.py',
+         sub('        if not q._has_row_limiting_clause:\n            q._order_by_clauses = ()\n',
+             '        stmt = q._statement\n        if stmt is not None and (\n            stmt._limit_clause is None and stmt._offset_clause is None\n'
+             '        ):\n            q._order_by_clauses = ()\n'), 'C18-R6')
+R.mutant('r7-base-row-limit-renders-nothing-for-offset-only', 'sql/compiler.py',
+         sub('        if cs._fetch_clause is not None:\n            return self.fetch_clause(cs, **kwargs)\n        else:\n            return self.limit_clause(cs, **kwargs)\n',
+             '        if cs._fetch_clause is not None:\n            return self.fetch_clause(cs, **kwargs)\n        elif cs._limit_clause is not None:\n'
+             '            return self.limit_clause(cs, **kwargs)\n        else:\n            return ""\n'), 'C18-R7')
+R.mutant('r7-sqlite-limit-clause-empty', 'dialects/sqlite/base.py',
+         sub('    def limit_clause(self, select, **kw):\n        text = ""\n',
+             '    def limit_clause(self, select, **kw):\n        text = ""\n        if self.dialect._sqlite_version_info < (3, 0, 0):\n            return text\n'), 'C18-R7')
+R.mutant('benign-r7-fix-mssql-compound-select-uses-offset-fetch-or-raises', MS,
+         sub('        if self.dialect._supports_offset_fetch and not self._use_top(select):\n            self._check_can_use_fetch_limit(select)\n',
+             '        is_compound = isinstance(select, expression.CompoundSelect)\n'
+             '        if is_compound and not self.dialect._supports_offset_fetch:\n            raise exc.CompileError(\n'
+             '                "LIMIT / OFFSET on a compound select requires OFFSET / FETCH"\n            )\n'
+             '        if self.dialect._supports_offset_fetch and (\n            is_compound or not self._use_top(select)\n        ):\n'
+             '            self._check_can_use_fetch_limit(select)\n'), None)
+R.mutant('benign-r7-base-row-limit-early-return', 'sql/compiler.py',
+         sub('        if cs._fetch_clause is not None:\n            return self.fetch_clause(cs, **kwargs)\n        else:\n            return self.limit_clause(cs, **kwargs)\n',
+             '        if cs._fetch_clause is None:\n            return self.limit_clause(cs, **kwargs)\n        return self.fetch_clause(cs, **kwargs)\n'), None)
+R.mutant('r3-oracle-rownum-added-to-the-statement-itself', OR,
+         sub('                orig_select = select\n                select = select._generate()\n                select._oracle_visit = True\n',
+             '                orig_select = select\n                select = select._generate()\n                select._oracle_visit = True\n'
+             '                select = select.add_columns(\n                    sql.literal_column("ROWNUM").label("ora_rn0")\n                )\n'), 'C18-R3')
+R.mutant('benign-oracle-rownum-column-through-local', OR,
+         sub('                    limitselect = limitselect.add_columns(\n                        sql.literal_column("ROWNUM").label("ora_rn")\n                    )\n',
+             '                    row_number = sql.literal_column("ROWNUM").label("ora_rn")\n'
+             '                    limitselect = limitselect.add_columns(row_number)\n'), None)
